@@ -479,6 +479,7 @@ func runC01Rest(c *Ctx) {
 	checkOffsetStores(c, "R9", nil)
 	checkWriteToEndsAtEOF(c, "R10")
 	checkSourceErrorsReturned(c, "R11")
+	checkFillCountsEveryRead(c, "R19")
 	// R12: the count equals the bytes moved — not when the chunk offsets wrapped (shared with C12.R10)
 	c.withRule("R12", func() { checkChunkOffsetsCannotWrap(c, "R10") })
 	checkAppendStartsAtEnd(c, "R13")
@@ -1554,4 +1555,38 @@ func narrowingIn(p *Program, v ssa.Value) *ssa.Convert {
 		return nil
 	}
 	return walk(v, 0)
+}
+
+// checkFillCountsEveryRead (C01.R19 / C13.R15): the fill helper behind ReadFrom (readFull: Read into b[n:] until b is
+// full or the source reports an error) adds the count of *every* Read to what it returns — io.Reader allows n > 0
+// together with an error, and those bytes were consumed from the source.  No path from a Read to the return (or to the
+// next Read) goes around the addition.
+func checkFillCountsEveryRead(c *Ctx, rule string) {
+	p := c.P
+	fn := p.Func("readFull")
+	if fn == nil {
+		c.missing(rule, "readFull")
+		return
+	}
+	reads := callsWhere(fn, func(cc *ssa.CallCommon) bool { return cc.IsInvoke() && cc.Method.Name() == "Read" })
+	for i, in := range reads {
+		call, ok := in.(*ssa.Call)
+		if !ok {
+			continue
+		}
+		var cnt *ssa.Extract
+		for _, r := range *call.Referrers() {
+			if ex, ok := r.(*ssa.Extract); ok && ex.Index == 0 {
+				cnt = ex
+			}
+		}
+		isAdd := func(x ssa.Instruction) bool {
+			b, ok := x.(*ssa.BinOp)
+			return ok && b.Op == token.ADD && cnt != nil && (b.X == ssa.Value(cnt) || b.Y == ssa.Value(cnt))
+		}
+		isEnd := func(x ssa.Instruction) bool { return isReturn(x) || x == in }
+		c.check(cnt != nil && !reachAvoiding(fn, in, isEnd, isAdd), rule, fmt.Sprintf("readFull counts the bytes of Read #%d on every path", i+1), p.Pos(in.Pos()),
+			"n += nn before the error is looked at", "the fill helper can return (or read again) without adding the count of a Read: bytes that the source delivered together with its error are consumed but not counted, and never sent")
+	}
+	c.check(len(reads) >= 1, rule, "readFull reads the source", p.Pos(fn.Pos()), fmt.Sprintf("%d Read calls", len(reads)), "readFull no longer calls Read")
 }
